@@ -496,7 +496,11 @@ class DAGRunConcurrentManager(DAGRunManagerLike):
 
             await self._lock_manager.wait_for_condition(
                 node_id,
-                functools.partial(self._is_ready_to_execute, dag, node_id),
+                lambda: (
+                    self._is_ready_to_execute(dag, node_id)  # noqa: B023
+                    # Inside a OneOf branch an error is stored as a node result, so the node may never become ready
+                    or (dag.is_oneof and self.__has_subgraph_error(dag))
+                ),
             )
 
             if dag.is_oneof and self.__has_subgraph_error(dag):
